@@ -327,7 +327,17 @@ def t_enumerate(ctx, index, maxpre, limit, shard=(0, 1)):
         r = run_scenario(case, s)
         check(ctx, case, s, r)
         return r['decisions']
-    n, complete = S.enumerate_schedules(one, maxpre, limit, tuple(shard))
+    seen_fail = [None]
+
+    def stop():
+        # a violation was found: run 40 more schedules (other root causes),
+        # then stop instead of re-finding it thousands of times
+        if ctx.failures and seen_fail[0] is None:
+            seen_fail[0] = ctx.evaluations
+        return seen_fail[0] is not None and \
+            ctx.evaluations - seen_fail[0] > 40
+    n, complete = S.enumerate_schedules(one, maxpre, limit, tuple(shard),
+                                        stop)
     ctx.sample(dict(case, note='%d schedules, <= %d preemptions, '
                     'complete=%s' % (n, maxpre, complete)), 'enumerated')
     if complete:
